@@ -77,7 +77,7 @@ pub fn run(tier: Tier) -> i32 {
         }
     }
     let t0 = Instant::now();
-    let settings = [(3u32, 0u32, 2u32), (0, 0, 0), (2, 1, 3)];
+    let settings: Vec<(u32, u32, u32)> = tier.pick(vec![(3u32, 0u32, 2u32), (0, 0, 0), (2, 1, 3)], vec![(3, 0, 2), (0, 0, 0), (2, 1, 3), (0, 4, 4), (8, 0, 0), (4, 4, 0), (1, 0, 1)]);
     par_for((cells.len() * settings.len()) as u64, |ix| {
         let (pi, marker, hfield, sopt, trailing, runner) = cells[ix as usize % cells.len()];
         let (lc, lp, pb) = settings[ix as usize / cells.len()];
